@@ -146,9 +146,20 @@ func Harness_C16_attribute() {
 // name in document order - also when a name occurs in several attributes or statements - and nothing else
 // but the session indexes.
 func Harness_C16_new() {
-	codec := JWTSessionCodec{Audience: "aud", Issuer: "iss", MaxAge: time.Hour}
+	maxAge := verifNondetDuration("codec.MaxAge")
+	verifAssume(maxAge > 0)
+	verifAssume(maxAge < 1<<50)
+	codec := JWTSessionCodec{Audience: "aud", Issuer: "iss", MaxAge: maxAge}
+	now := verifNondetTime("now")
+	verifAssume(now.After(time.Unix(100000, 0)))
+	verifSetClock(now)
 	names := []string{"groups", "role"}
 	a := &saml.Assertion{Subject: &saml.Subject{NameID: &saml.NameID{Value: verifNondetString("nameid")}}}
+	// the IdP's own idea of how long its session lasts must not stretch the SP session
+	if verifChoose("authn.statement", 2) == 1 {
+		sna := verifNondetTime("sessionNotOnOrAfter")
+		a.AuthnStatements = []saml.AuthnStatement{{SessionIndex: "idx", SessionNotOnOrAfter: &sna}}
+	}
 	want := map[string][]string{}
 	k := 0
 	for s := 0; s < 2; s++ {
@@ -184,6 +195,11 @@ func Harness_C16_new() {
 	}
 	verifReach("minted")
 	verifAssert(claims.Subject == a.Subject.NameID.Value, "C16/new/subject-is-the-name-id")
+	verifAssert(claims.ExpiresAt == now.Add(maxAge).Unix(), "C16/new/expires-max-age-after-issue")
+	verifAssert(claims.IssuedAt == now.Unix(), "C16/new/issued-now")
+	verifAssert(claims.NotBefore == now.Unix(), "C16/new/not-before-now")
+	verifAssert(claims.SAMLSession, "C16/new/session-marker")
+	verifAssert(claims.Audience == "aud" && claims.Issuer == "iss", "C16/new/audience-and-issuer")
 	for _, name := range names {
 		got := claims.Attributes[name]
 		verifAssert(len(got) == len(want[name]), "C16/new/attribute-value-count")
@@ -195,7 +211,7 @@ func Harness_C16_new() {
 	}
 	n := 0
 	for name := range claims.Attributes {
-		if name != "groups" && name != "role" {
+		if name != "groups" && name != "role" && name != "SessionIndex" {
 			n++
 		}
 	}
